@@ -42,7 +42,10 @@ Nest == <<"(try _1 _2)", "(try 1 (catch _1 _2))", "(try (throw 1) (catch _1 _2) 
           "(do (defmacro m (with-meta (fn [a] a) _1)) (m _2))", "(do (def f (with-meta (fn [a] a) _1)) (f _2) (map f [_3]))",
           "(do (defmacro m (with-meta (fn [& r] _1) {:d 1})) (m _2 _3))", "((with-meta (fn _1 _2) {:d 1}) _3)",
           \* a handler that ends in a call that cannot bind its arguments, with a finally body that looks names up
-          "(try (throw 1) (catch e ((fn [a b] a) _1)) (finally (list _2 _3)))", "(try _1 (catch e ((fn [a & ] a))) (finally _2 _3))">>
+          "(try (throw 1) (catch e ((fn [a b] a) _1)) (finally (list _2 _3)))", "(try _1 (catch e ((fn [a & ] a))) (finally _2 _3))",
+          \* functions and macros WITHOUT a body, called with every number of arguments
+          "((fn _1) _2 _3)", "((fn _1))", "((fn _1) _2)", "(do (def f (fn _1)) (f _2 _3) (f))", "(do (defmacro m (fn _1)) (m _2 _3))",
+          "(apply (fn _1) _2 _3)">>
 NestT == [k \in 1..Len(Nest) |-> Parse(Nest[k])]
 
 Values == <<"nil", "1", "\"s\"", ":k", "'x", "()", "[1]", "{:a 1}", "#{:a}", "inc", "(atom 1)", "-1", "'(1 2)", "[[1]]">>
